@@ -1,5 +1,7 @@
 import PfVerif.Audit.Tool
 import PfVerif.Props.C12
 import PfVerif.Lemmas.C12Session
+import PfVerif.Lemmas.C12Multi
 #audit_module PfVerif.Props.C12
 #audit_module_ns PfVerif.Lemmas.C12Session PfVerif.C12Session
+#audit_module_ns PfVerif.Lemmas.C12Multi PfVerif.C12Multi
